@@ -255,7 +255,7 @@ def main(argv):
             n1, n2 = int(20000 * a.scale), int(20000 * a.scale)
         else:
             cfgs = (a.configs.split(",") if a.configs else ALL_CONFIGS)
-            n1, n2 = int(1000000 * a.scale), int(600000 * a.scale)
+            n1, n2 = int(2500000 * a.scale), int(1500000 * a.scale)
         exes = build_many(cfgs)
         m = run_sharded("c11", "gen", (n1 // NCPU + 1, n2 // NCPU + 1), [(c, exes[c]) for c in cfgs], a.seed, timeout=3600)
         rep.merge(m)
